@@ -40,7 +40,7 @@ package kmipserver
 //@   ensures rejected(exec, req) ==> r1 != nil && r0 == nil
 //@   ensures nomw(exec) ==> (rejected(exec, req) ==> itemCalls == old(itemCalls))
 //@   ensures !rejected(exec, req) ==> r1 == nil && r0 != nil && isnew(r0) && len(r0.BatchItem) == len(req.BatchItem)
-//@   ensures ewmCalls > old(ewmCalls) ==> ewmCtx == ctx
+//@   ensures ewmCalls != old(ewmCalls) ==> ewmCtx == ctx
 //@   ensures !rejected(exec, req) ==> r0.Header.BatchCount == req.Header.BatchCount && r0.Header.ProtocolVersion == req.Header.ProtocolVersion
 //@   ensures nomw(exec) ==> (!rejected(exec, req) ==> forall j int :: 0 <= j && j < len(req.BatchItem) ==> r0.BatchItem[j].Operation == req.BatchItem[j].Operation && r0.BatchItem[j].UniqueBatchItemID == req.BatchItem[j].UniqueBatchItemID)
 //@   ensures nomw(exec) ==> (!rejected(exec, req) && !isStop(req) ==> itemCalls == old(itemCalls)+len(req.BatchItem))
@@ -57,7 +57,7 @@ package kmipserver
 //@   ghost coreRet = r0
 //@   ghost coreErr = r1
 //@   loop 0 invariant -1 <= rangeindex && rangeindex < len(req.BatchItem)
-//@   loop 0 invariant ewmCalls >= old(ewmCalls) && (ewmCalls > old(ewmCalls) ==> ewmCtx == ctx)
+//@   loop 0 invariant ewmCalls != old(ewmCalls) ==> ewmCtx == ctx
 //@   loop 0 invariant nomw(exec) ==> (forall j int :: 0 <= j && j <= rangeindex ==> response.BatchItem[j].Operation == req.BatchItem[j].Operation && response.BatchItem[j].UniqueBatchItemID == req.BatchItem[j].UniqueBatchItemID)
 //@   loop 0 invariant nomw(exec) ==> (!stopped ==> itemCalls == old(itemCalls)+rangeindex+1)
 //@   loop 0 invariant nomw(exec) ==> (0 <= itemCalls-old(itemCalls) && itemCalls-old(itemCalls) <= rangeindex+1)
